@@ -50,6 +50,12 @@ func (enc *Encoder) setErr(err error) {
 	}
 }
 
+// Err returns the first error encountered by the encoder, if any. Once an
+// error has occurred nothing more is written.
+func (enc *Encoder) Err() error {
+	return enc.err
+}
+
 func (enc *Encoder) writeString(s string) *Encoder {
 	if enc.err != nil {
 		return enc
@@ -130,6 +136,11 @@ func (enc *Encoder) validQuoted(s string) bool {
 }
 
 func (enc *Encoder) stringLiteral(s string) {
+	if enc.err != nil {
+		// Nothing will be written: don't register a continuation request
+		// which would never be waited for
+		return
+	}
 	var sync *ContinuationRequest
 	if enc.side == ConnSideClient && (!enc.LiteralMinus || len(s) > 4096) && !enc.LiteralPlus {
 		if enc.NewContinuationRequest != nil {
